@@ -5,8 +5,10 @@
    wf x: BINT_SIZE limbs, each in [0, 2^BINT_WORDBITS);  uval: unsigned value;  sval: two's
    complement value;  all arithmetic is exact arithmetic reduced mod 2^BINT_BITS.
    Lua integers: in_i64, wrap64 (two's complement wrap), u64 (unsigned reading). *)
-From C17 Require Import Model Model2 Model3 Proofs ProofsLib ProofsArith ProofsBits ProofsConv ProofsShift
-  ProofsMisc ProofsDiv ProofsDiv2 ProofsPow ProofsText ProofsText2 ProofsText3.
+From C17 Require Import Model Model2 Model3 Proofs ProofsLib ProofsArith ProofsMul ProofsBits ProofsConv ProofsShift
+  ProofsMisc ProofsSudiv ProofsDiv ProofsSigned ProofsDiv2 ProofsDiv3 ProofsPow ProofsText ProofsText2 ProofsText3
+  ProofsMixed ProofsBytes.
+From C17 Require Import Model4.
 Local Open Scope Z_scope.
 
 (* ---- ring operations ---- *)
@@ -234,3 +236,91 @@ Proof.
   exact (fun v bits Hv Hb => conj (todecint_correct v Hv) (conj (tohexint_correct v bits Hv Hb) (tobinint_correct v bits Hv Hb))).
 Qed.
 Print Assumptions C17_intstring_exact.
+
+(* ---- how the compiler calls the library: Lua integers, floats (FFin m e = the double m * 2^e),
+   strings and bints mixed.  lval_int v: the integer the library reads v as - a Lua integer, a float with an
+   integral value inside the Lua integer range (float_int), a bint (its signed value); None for floats with a
+   fraction or beyond that range, inf, nan. ---- *)
+Theorem C17_tobint_exact :
+  (forall v z, wf_lval v -> lval_int v = Some z ->
+     exists x, tobint v = Some x /\ wf x /\ sval x = z /\ uval x = z mod 2 ^ BINT_BITS) /\
+  (forall v, not_string v -> lval_int v = None -> tobint v = None) /\
+  (forall v, wf_lval v -> not_string v ->
+     match lval_int v with
+     | Some z => exists x, bnew v = COk x /\ wf x /\ sval x = z
+     | None => bnew v = CAssert
+     end).
+Proof. exact (conj tobint_int (conj tobint_none bnew_correct)). Qed.
+Print Assumptions C17_tobint_exact.
+
+(* strings handed to bint.new / tobint: decimal, 0x.., 0b.. with optional sign *)
+Theorem C17_fromstring_exact : forall sg cs, sign_ok sg -> cs <> [] ->
+  (forallb is_digit cs = true ->
+     exists x, fromstring (sg ++ cs) = Ok x /\ wf x /\ uval x = (sign_val sg * dval 10 (map cval cs)) mod 2 ^ BINT_BITS) /\
+  (forall p, p = 120 \/ p = 88 -> forallb is_hexdigit cs = true ->
+     exists x, fromstring (sg ++ 48 :: p :: cs) = Ok x /\ wf x /\ uval x = (sign_val sg * dval 16 (map cval cs)) mod 2 ^ BINT_BITS) /\
+  (forall p, p = 98 \/ p = 66 -> forallb is_bindigit cs = true ->
+     exists x, fromstring (sg ++ 48 :: p :: cs) = Ok x /\ wf x /\ uval x = (sign_val sg * dval 2 (map cval cs)) mod 2 ^ BINT_BITS).
+Proof. exact fromstring_correct. Qed.
+Print Assumptions C17_fromstring_exact.
+
+(* add / sub / mul / lt / le / eq on any mix of arguments that denote integers are the exact operations on
+   those integers; otherwise no big-number arithmetic happens (the operands go to the VM as plain numbers) *)
+Theorem C17_mixed_exact : forall a b,
+  (forall za zb, wf_lval a -> wf_lval b -> lval_int a = Some za -> lval_int b = Some zb ->
+     (exists r, madd a b = MBint r /\ wf r /\ uval r = (za + zb) mod 2 ^ BINT_BITS) /\
+     (exists r, msub a b = MBint r /\ wf r /\ uval r = (za - zb) mod 2 ^ BINT_BITS) /\
+     (exists r, mmul a b = MBint r /\ wf r /\ uval r = (za * zb) mod 2 ^ BINT_BITS) /\
+     mlt a b = Some (za <? zb) /\ mle a b = Some (za <=? zb) /\ meq a b = (za =? zb)) /\
+  (not_string a -> not_string b -> lval_int a = None \/ lval_int b = None ->
+     madd a b = MFallback (lval_tonumber a) (lval_tonumber b) /\
+     msub a b = MFallback (lval_tonumber a) (lval_tonumber b) /\
+     mmul a b = MFallback (lval_tonumber a) (lval_tonumber b)).
+Proof. exact (fun a b => conj (mixed_exact a b) (mixed_fallback a b)). Qed.
+Print Assumptions C17_mixed_exact.
+
+(* bint.tonumber: the exact Lua integer when it fits, otherwise the nearest double (ties to even, rne53) of
+   the signed value; rne53 is exact up to 53 significant bits and off by at most half a unit in the last place *)
+Theorem C17_tonumber_exact :
+  (forall x, wf x -> bint_tonumber x = if in_i64b (sval x) then NInt (sval x) else NFlt (FFin (rne53 (sval x)) 0)) /\
+  (forall v, let L := Z.log2 (Z.abs v) + 1 in
+     (L <= 53 -> rne53 v = v) /\
+     (53 < L -> exists q, rne53 v = Z.sgn v * (q * 2 ^ (L - 53)) /\ 2 ^ 52 <= q <= 2 ^ 53 /\
+                2 * Z.abs (rne53 v - v) <= 2 ^ (L - 53))).
+Proof. exact (conj tonumber_correct rne53_spec). Qed.
+Print Assumptions C17_tonumber_exact.
+
+(* trunc / floor / ceil of a float: the mathematical rounding of m * 2^e when it fits a Lua integer, else nil
+   (trunc) or the assert of bint.new (floor, ceil) *)
+Theorem C17_trunc_floor_ceil_exact : forall m e,
+  btrunc (LNum (NFlt (FFin m e))) = (if in_i64b (fl_trunc m e) then Some (frominteger (fl_trunc m e)) else None) /\
+  bfloor (LNum (NFlt (FFin m e))) = (if in_i64b (fl_floor m e) then COk (frominteger (fl_floor m e)) else CAssert) /\
+  bceil (LNum (NFlt (FFin m e))) = (if in_i64b (fl_ceil m e) then COk (frominteger (fl_ceil m e)) else CAssert) /\
+  (e < 0 -> let d := 2 ^ (- e) in
+     fl_floor m e * d <= m < (fl_floor m e + 1) * d /\ (fl_ceil m e - 1) * d < m <= fl_ceil m e * d /\
+     fl_trunc m e = (if m <? 0 then fl_ceil m e else fl_floor m e)).
+Proof.
+  exact (fun m e => conj (trunc_correct (LNum (NFlt (FFin m e))))
+                    (conj (proj1 (floor_ceil_correct m e)) (conj (proj1 (proj2 (floor_ceil_correct m e))) (fl_round_spec m e)))).
+Qed.
+Print Assumptions C17_trunc_floor_ceil_exact.
+
+(* byte buffers: fromle reads the first BYTES bytes little-endian (missing ones are zero), tole/tobe write the
+   value, with or without trimming, and both round trips give the same bint back *)
+Theorem C17_bytes_exact :
+  (forall bs, Forall byte_ok bs -> wf (bfromle bs) /\ uval (bfromle bs) = le_bytes_val (firstn BINT_BYTES bs)) /\
+  (forall bs, Forall byte_ok bs -> (length bs <= BINT_BYTES)%nat -> wf (bfrombe bs) /\ uval (bfrombe bs) = le_bytes_val (rev bs)) /\
+  (forall x trim, wf x ->
+     Forall byte_ok (btole x trim) /\ le_bytes_val (btole x trim) = uval x /\
+     (trim = false -> length (btole x trim) = BINT_BYTES) /\ bfromle (btole x trim) = x) /\
+  (forall x trim, wf x -> bfrombe (btobe x trim) = x /\ (trim = false -> btobe x trim = rev (btole x false))).
+Proof. exact (conj fromle_correct (conj frombe_correct (conj tole_correct tobe_correct))). Qed.
+Print Assumptions C17_bytes_exact.
+
+(* bn.todecsci on a bint: the signed decimal digits, ".0" appended when forcefract *)
+Theorem C17_todecsci_exact : forall v forcefract, wf v ->
+  exists ds, todecsci_int v forcefract =
+             Ok (((if sval v <? 0 then [45] else []) ++ map digit_char ds) ++ (if forcefract then [46; 48] else [])) /\
+             canon 10 ds (Z.abs (sval v)).
+Proof. exact todecsci_int_correct. Qed.
+Print Assumptions C17_todecsci_exact.
